@@ -103,6 +103,70 @@ theorem C02_gen_bound_TextReader_ReadHeader_3_ub (x : Int) : bound_TextReader_Re
 theorem C02_gen_bound_TextReader_ReadHeader_4_ub (x : Int) : bound_TextReader_ReadHeader_4_ub x = .ret x := rfl
 theorem C02_gen_bound_TextReader_ReadHeader_5_ub (x : Int) : bound_TextReader_ReadHeader_5_ub x = .ret x := rfl
 
+/-! ### the header parse as a script of reads
+
+`TextReader::ReadHeader` interleaves its reads with assignments of defaults (`-1`), two sums and four guards (the guards are
+translated: `C02_gen_tooManyOptions`, `C02_gen_conOverflow`, `C02_gen_complOverflow`, `C02_gen_badArith`, the accumulating
+check `C02_gen_accOverflow`).  Its *read structure* — which primitive fills which header field, in which order, which reads
+are optional (`&&` chains), conditional (`if>`) or in the option loop (`for>`) — is extracted from the AST as
+`Gen.NLGuards.headerScript`; the list below is the order in which `readHeader` / `readCommonExprs` / `readOptions`
+(Model.lean) perform them.  An added, removed, reordered or re-targeted header field breaks this theorem.  (A full
+translation of `ReadHeader` into an executable step function was not attempted: the reads are calls with side effects on the
+cursor inside short-circuit conditions; the model keeps them hand-written and the correspondence compares all 47 header
+fields on every input.) -/
+def knownHeaderScript : List (String × String × String) := [
+  ("ReadChar", "-", "top"),
+  ("ReadOptionalUInt", "num_ampl_options", "top"),
+  ("ReadOptionalDouble", "tmp", "for>"),
+  ("ReadOptionalDouble", "ampl_vbtol", "if>"),
+  ("ReadTillEndOfLine", "-", "top"),
+  ("ReadUInt", "num_vars", "top"),
+  ("ReadUInt", "num_algebraic_cons", "top"),
+  ("ReadUInt", "num_objs", "top"),
+  ("ReadOptionalUInt", "num_ranges", "top"),
+  ("ReadOptionalUInt", "num_eqns", "&&"),
+  ("ReadOptionalUInt", "num_logical_cons", "if>"),
+  ("ReadTillEndOfLine", "-", "top"),
+  ("ReadUInt", "num_nl_cons", "top"),
+  ("ReadUInt", "num_nl_objs", "top"),
+  ("ReadOptionalUInt", "num_compl_conds", "top"),
+  ("ReadOptionalUInt", "num_nl_compl_conds", "&&"),
+  ("ReadOptionalUInt", "num_compl_dbl_ineqs", "&&"),
+  ("ReadOptionalUInt", "num_compl_vars_with_nz_lb", "&&"),
+  ("ReadTillEndOfLine", "-", "top"),
+  ("ReadUInt", "num_nl_net_cons", "top"),
+  ("ReadUInt", "num_linear_net_cons", "top"),
+  ("ReadTillEndOfLine", "-", "top"),
+  ("ReadUInt", "num_nl_vars_in_cons", "top"),
+  ("ReadUInt", "num_nl_vars_in_objs", "top"),
+  ("ReadOptionalUInt", "num_nl_vars_in_both", "top"),
+  ("ReadTillEndOfLine", "-", "top"),
+  ("ReadUInt", "num_linear_net_vars", "top"),
+  ("ReadUInt", "num_funcs", "top"),
+  ("ReadOptionalUInt", "arith_kind", "top"),
+  ("ReadOptionalUInt", "flags", "if>"),
+  ("ReadTillEndOfLine", "-", "top"),
+  ("ReadUInt", "num_linear_binary_vars", "top"),
+  ("ReadUInt", "num_linear_integer_vars", "top"),
+  ("ReadUInt", "num_nl_integer_vars_in_both", "if>"),
+  ("ReadUInt", "num_nl_integer_vars_in_cons", "if>"),
+  ("ReadUInt", "num_nl_integer_vars_in_objs", "if>"),
+  ("ReadTillEndOfLine", "-", "top"),
+  ("ReadUInt<size_t>", "num_con_nonzeros", "top"),
+  ("ReadUInt<size_t>", "num_obj_nonzeros", "top"),
+  ("ReadTillEndOfLine", "-", "top"),
+  ("ReadUInt", "max_con_name_len", "top"),
+  ("ReadUInt", "max_var_name_len", "top"),
+  ("ReadTillEndOfLine", "-", "top"),
+  ("ReadUInt", "num_common_exprs_in_both(max_vars)", "top"),
+  ("ReadUInt", "num_common_exprs_in_cons(max_vars)", "top"),
+  ("ReadUInt", "num_common_exprs_in_objs(max_vars)", "top"),
+  ("ReadUInt", "num_common_exprs_in_single_cons(max_vars)", "top"),
+  ("ReadUInt", "num_common_exprs_in_single_objs(max_vars)", "top"),
+  ("ReadTillEndOfLine", "-", "top")
+]
+theorem C02_gen_header_script : headerScript = knownHeaderScript := rfl
+
 /-! ### character guards of the text reader -/
 
 theorem char_cne (c : UInt8) (k : Nat) (hk : k < 128) :
